@@ -118,6 +118,16 @@ def undo(t=0, end='finish', at=None):
     return commit(end, begin={'a': 'UBegin', 't': t}, at=at)
 
 
+def commit_fault():
+    """a commit whose first storeBlob meets a failing os.chmod; the transaction is aborted"""
+    return [{'a': 'TpcBegin'}, {'a': 'StoreFault'}] + _TAIL
+
+
+def pack_during(T=0):
+    """db.pack while the commit is in progress (use inside commit(at=...))"""
+    return [{'a': 'PackDuring', 'T': T}]
+
+
 def undo_copy_fail(t=0):
     """an undo whose first blob copy meets a failing write; the transaction is aborted"""
     return [{'a': 'UBegin', 't': t}, {'a': 'UStoreCopyFail'}] + _TAIL
@@ -147,7 +157,7 @@ _NODE = re.compile(r'^(-?\d+) \[label="((?:[^"\\]|\\.)*)"(?:,tooltip="(?:[^"\\]|
 _EDGE = re.compile(r'^(-?\d+) -> (-?\d+) \[label="([^"]*)"')
 _ARGS = {'CreateBlob': ('b', 'c'), 'Rewrite': ('b', 'x'), 'Append': ('b', 'x'), 'ConsumeFile': ('b', 'x'), 'ConsumeFail': ('b',),
          'ModifyP': ('v',), 'Rollback': ('k',), 'OtherCommit': ('o', 'x'), 'UBegin': ('t',), 'Pack': ('T',),
-         'Wrong': ('m',), 'OpenWrite': ('b', 'x'), 'OpenRead': ('b',), 'OtherAbort': ('b', 'x'), 'OtherFinish': ('b', 'x')}
+         'Wrong': ('m',), 'PackDuring': ('T',), 'OpenWrite': ('b', 'x'), 'OpenRead': ('b',), 'OtherAbort': ('b', 'x'), 'OtherFinish': ('b', 'x')}
 
 
 def evaluate(scripts, c, workdir, timeout=600, workers=1):
